@@ -1,0 +1,357 @@
+// Copyright Amazon.com, Inc. or its affiliates. All Rights Reserved.
+// SPDX-License-Identifier: GPL-2.0-only
+
+//! Verification hooks. This module only exists when the crate is compiled with
+//! `--cfg clock_bound_verif`; it is never part of a normal build.
+//!
+//! It provides drop-in stand-ins for the few std facilities the daemon threads synchronise
+//! through (`std::sync::mpsc`, `std::thread::spawn`) and for the request to chronyd, each of which
+//! reports to, and takes its scheduling decisions from, a table of function pointers installed by
+//! an external model checker. With no table installed every operation falls through to the real
+//! one, so the crate behaves exactly as in a normal build.
+
+use chrony_candm::reply::Reply;
+use chrony_candm::request::RequestBody;
+use chrony_candm::ClientOptions;
+use std::sync::atomic::{AtomicPtr, Ordering as O};
+use std::time::Duration;
+
+/// Decision taken by the checker at a scheduling point.
+#[derive(Clone, Copy, Debug, PartialEq, Eq)]
+pub enum Ctl {
+    /// Perform the operation.
+    Proceed,
+    /// The execution is being torn down: fail the operation without performing it.
+    Fail,
+}
+
+/// Decision taken by the checker for a receive operation.
+#[derive(Clone, Copy, Debug, PartialEq, Eq)]
+pub enum RecvCtl {
+    /// A message is queued: take it.
+    Take,
+    /// The timeout of a `recv_timeout` elapsed.
+    Timeout,
+    /// All senders are gone (or the execution is being torn down).
+    Disconnected,
+}
+
+/// What a fault point asks its caller to do.
+#[derive(Clone, Copy, Debug, PartialEq, Eq)]
+pub enum FaultAction {
+    /// Carry on.
+    None,
+    /// Return from the enclosing thread function right away.
+    Return,
+}
+
+/// Callbacks of a controlled scheduler.
+pub struct SchedHooks {
+    pub chan_new: fn() -> usize,
+    pub sender_clone: fn(usize),
+    pub sender_drop: fn(usize),
+    pub receiver_drop: fn(usize),
+    /// Scheduling point before a send on a channel.
+    pub send: fn(usize) -> Ctl,
+    /// Outcome of the send that followed (true if the message was queued).
+    pub sent: fn(usize, bool),
+    /// Scheduling point of a receive on a channel, with the timeout if there is one.
+    pub recv: fn(usize, Option<Duration>) -> RecvCtl,
+    /// A thread is about to be spawned; returns its identifier.
+    pub spawn: fn() -> usize,
+    /// First / last thing a spawned thread does (the flag tells whether it panicked).
+    pub thread_begin: fn(usize),
+    pub thread_end: fn(usize, bool),
+    /// Scheduling point before joining a thread.
+    pub join: fn(usize) -> Ctl,
+    /// A named point at which the checker may inject a failure (it may also panic).
+    pub fault_point: fn(&'static str) -> FaultAction,
+    /// Whether `DispatchBox::keys` enumerates in reverse order.
+    pub reverse_keys: fn() -> bool,
+}
+
+/// Table of callbacks installed by the model checker.
+pub struct Hooks {
+    pub sched: Option<SchedHooks>,
+    /// Replacement for the request to chronyd.
+    pub chrony_query: Option<fn(RequestBody, ClientOptions) -> std::io::Result<Reply>>,
+}
+
+static HOOKS: AtomicPtr<Hooks> = AtomicPtr::new(std::ptr::null_mut());
+
+/// Install a table of hooks (process wide).
+pub fn install(h: &'static Hooks) {
+    HOOKS.store(h as *const Hooks as *mut Hooks, O::SeqCst);
+}
+
+/// Remove the table of hooks.
+pub fn uninstall() {
+    HOOKS.store(std::ptr::null_mut(), O::SeqCst);
+}
+
+#[inline]
+fn hooks() -> Option<&'static Hooks> {
+    let p = HOOKS.load(O::Relaxed);
+    if p.is_null() {
+        None
+    } else {
+        // SAFETY: only ever set from a &'static Hooks
+        Some(unsafe { &*p })
+    }
+}
+
+#[inline]
+fn sched() -> Option<&'static SchedHooks> {
+    hooks().and_then(|h| h.sched.as_ref())
+}
+
+/// Stand-in for `chrony_candm::blocking_query_uds`.
+pub fn blocking_query_uds(
+    request_body: RequestBody,
+    options: ClientOptions,
+) -> std::io::Result<Reply> {
+    match hooks().and_then(|h| h.chrony_query) {
+        Some(f) => f(request_body, options),
+        None => chrony_candm::blocking_query_uds(request_body, options),
+    }
+}
+
+/// A point at which the checker may make the calling thread fail.
+pub fn fault_point(name: &'static str) -> FaultAction {
+    match sched() {
+        Some(s) => (s.fault_point)(name),
+        None => FaultAction::None,
+    }
+}
+
+/// Order in which `DispatchBox::keys` enumerates the channels. The order of a `HashMap` changes
+/// from one map to the next; the checker needs to own that choice.
+pub fn ordered_keys<'a, K: std::hash::Hash>(keys: impl Iterator<Item = &'a K>) -> std::vec::IntoIter<&'a K> {
+    use std::hash::Hasher;
+    let mut v: Vec<&K> = keys.collect();
+    if let Some(s) = sched() {
+        v.sort_by_key(|k| {
+            let mut h = std::collections::hash_map::DefaultHasher::new();
+            k.hash(&mut h);
+            h.finish()
+        });
+        if (s.reverse_keys)() {
+            v.reverse();
+        }
+    }
+    v.into_iter()
+}
+
+/// Stand-in for `std::sync::mpsc`.
+pub mod mpsc {
+    use super::{sched, Ctl, RecvCtl};
+    pub use std::sync::mpsc::{RecvError, RecvTimeoutError, SendError, TryRecvError};
+    use std::time::Duration;
+
+    const UNTRACKED: usize = usize::MAX;
+
+    pub struct Sender<T> {
+        inner: std::sync::mpsc::Sender<T>,
+        id: usize,
+    }
+
+    pub struct Receiver<T> {
+        inner: std::sync::mpsc::Receiver<T>,
+        id: usize,
+    }
+
+    pub fn channel<T>() -> (Sender<T>, Receiver<T>) {
+        let (tx, rx) = std::sync::mpsc::channel();
+        let id = match sched() {
+            Some(s) => (s.chan_new)(),
+            None => UNTRACKED,
+        };
+        (Sender { inner: tx, id }, Receiver { inner: rx, id })
+    }
+
+    impl<T> Clone for Sender<T> {
+        fn clone(&self) -> Self {
+            if self.id != UNTRACKED {
+                if let Some(s) = sched() {
+                    (s.sender_clone)(self.id)
+                }
+            }
+            Sender {
+                inner: self.inner.clone(),
+                id: self.id,
+            }
+        }
+    }
+
+    impl<T> Drop for Sender<T> {
+        fn drop(&mut self) {
+            if self.id != UNTRACKED {
+                if let Some(s) = sched() {
+                    (s.sender_drop)(self.id)
+                }
+            }
+        }
+    }
+
+    impl<T> Drop for Receiver<T> {
+        fn drop(&mut self) {
+            if self.id != UNTRACKED {
+                if let Some(s) = sched() {
+                    (s.receiver_drop)(self.id)
+                }
+            }
+        }
+    }
+
+    impl<T> std::fmt::Debug for Sender<T> {
+        fn fmt(&self, f: &mut std::fmt::Formatter<'_>) -> std::fmt::Result {
+            self.inner.fmt(f)
+        }
+    }
+
+    impl<T> std::fmt::Debug for Receiver<T> {
+        fn fmt(&self, f: &mut std::fmt::Formatter<'_>) -> std::fmt::Result {
+            self.inner.fmt(f)
+        }
+    }
+
+    impl<T> Sender<T> {
+        pub fn send(&self, t: T) -> Result<(), SendError<T>> {
+            match (self.id, sched()) {
+                (UNTRACKED, _) | (_, None) => self.inner.send(t),
+                (id, Some(s)) => match (s.send)(id) {
+                    Ctl::Fail => Err(SendError(t)),
+                    Ctl::Proceed => {
+                        let r = self.inner.send(t);
+                        (s.sent)(id, r.is_ok());
+                        r
+                    }
+                },
+            }
+        }
+    }
+
+    impl<T> Receiver<T> {
+        pub fn recv(&self) -> Result<T, RecvError> {
+            match (self.id, sched()) {
+                (UNTRACKED, _) | (_, None) => self.inner.recv(),
+                (id, Some(s)) => match (s.recv)(id, None) {
+                    RecvCtl::Take => Ok(self
+                        .inner
+                        .try_recv()
+                        .expect("verif: scheduler and channel disagree")),
+                    _ => Err(RecvError),
+                },
+            }
+        }
+
+        pub fn recv_timeout(&self, timeout: Duration) -> Result<T, RecvTimeoutError> {
+            match (self.id, sched()) {
+                (UNTRACKED, _) | (_, None) => self.inner.recv_timeout(timeout),
+                (id, Some(s)) => match (s.recv)(id, Some(timeout)) {
+                    RecvCtl::Take => Ok(self
+                        .inner
+                        .try_recv()
+                        .expect("verif: scheduler and channel disagree")),
+                    RecvCtl::Timeout => Err(RecvTimeoutError::Timeout),
+                    RecvCtl::Disconnected => Err(RecvTimeoutError::Disconnected),
+                },
+            }
+        }
+
+        pub fn try_recv(&self) -> Result<T, TryRecvError> {
+            match (self.id, sched()) {
+                (UNTRACKED, _) | (_, None) => self.inner.try_recv(),
+                (id, Some(s)) => match (s.recv)(id, Some(Duration::ZERO)) {
+                    RecvCtl::Take => Ok(self
+                        .inner
+                        .try_recv()
+                        .expect("verif: scheduler and channel disagree")),
+                    RecvCtl::Timeout => Err(TryRecvError::Empty),
+                    RecvCtl::Disconnected => Err(TryRecvError::Disconnected),
+                },
+            }
+        }
+    }
+}
+
+/// Iterators over a stand-in receiver (same contracts as the std ones).
+pub struct Iter<'a, T>(&'a mpsc::Receiver<T>);
+pub struct TryIter<'a, T>(&'a mpsc::Receiver<T>);
+
+impl<T> Iterator for Iter<'_, T> {
+    type Item = T;
+    fn next(&mut self) -> Option<T> {
+        self.0.recv().ok()
+    }
+}
+
+impl<T> Iterator for TryIter<'_, T> {
+    type Item = T;
+    fn next(&mut self) -> Option<T> {
+        self.0.try_recv().ok()
+    }
+}
+
+impl<T> mpsc::Receiver<T> {
+    pub fn iter(&self) -> Iter<'_, T> {
+        Iter(self)
+    }
+    pub fn try_iter(&self) -> TryIter<'_, T> {
+        TryIter(self)
+    }
+}
+
+/// Stand-in for `std::thread::JoinHandle`.
+pub struct JoinHandle<T> {
+    inner: std::thread::JoinHandle<T>,
+    id: usize,
+}
+
+impl<T> JoinHandle<T> {
+    pub fn join(self) -> std::thread::Result<T> {
+        if self.id != usize::MAX {
+            if let Some(s) = sched() {
+                if (s.join)(self.id) == Ctl::Fail {
+                    return Err(Box::new("verif: execution torn down"));
+                }
+            }
+        }
+        self.inner.join()
+    }
+
+    pub fn is_finished(&self) -> bool {
+        self.inner.is_finished()
+    }
+}
+
+/// Stand-in for `std::thread::spawn`.
+pub fn spawn<F, T>(f: F) -> JoinHandle<T>
+where
+    F: FnOnce() -> T + Send + 'static,
+    T: Send + 'static,
+{
+    match sched() {
+        None => JoinHandle {
+            inner: std::thread::spawn(f),
+            id: usize::MAX,
+        },
+        Some(s) => {
+            let id = (s.spawn)();
+            let inner = std::thread::spawn(move || {
+                (s.thread_begin)(id);
+                match std::panic::catch_unwind(std::panic::AssertUnwindSafe(f)) {
+                    Ok(v) => {
+                        (s.thread_end)(id, false);
+                        v
+                    }
+                    Err(e) => {
+                        (s.thread_end)(id, true);
+                        std::panic::resume_unwind(e)
+                    }
+                }
+            });
+            JoinHandle { inner, id }
+        }
+    }
+}
